@@ -42,6 +42,7 @@ SITES = (
     "atype.instancecheck",
     "leaf.instancecheck",
     "node.flatten",
+    "node.unflatten",
     "fmt.attr",
     "fmt.format",
     "repr",
@@ -219,7 +220,13 @@ def _node_flatten(n):
     return tuple(n.children), None
 
 
-jtu.register_pytree_node(Node, _node_flatten, lambda aux, ch: Node(ch))
+def _node_unflatten(aux, children):
+    # also a call-out: composite / prefix / suffix structure checks rebuild dummy trees from the bound structures
+    hit("node.unflatten")
+    return Node(children)
+
+
+jtu.register_pytree_node(Node, _node_flatten, _node_unflatten)
 
 NT = __import__("collections").namedtuple("NT", ["p", "q"])
 
